@@ -260,6 +260,14 @@ func (r *Run) account(ctx *hx.Ctx, c *Case) {
 	ctx.Cov.Bucket("blocks-per-case", len(r.Sim.Blocks))
 	ctx.Cov.Count(fmt.Sprintf("n=%d", c.Script.Cfg.N))
 	ctx.Cov.Count(fmt.Sprintf("L=%d", c.Script.Cfg.L))
+	switch F, L := c.Script.Cfg.F, c.Script.Cfg.L; {
+	case F == 0:
+		ctx.Cov.Count("finality-fork:0")
+	case F%L == 0:
+		ctx.Cov.Count("finality-fork:aligned")
+	default:
+		ctx.Cov.Count("finality-fork:unaligned")
+	}
 	for _, o := range r.Obs {
 		switch {
 		case o.Code == CodeOK:
